@@ -40,9 +40,14 @@ func (c *Ctx) stringDecoderClass(fn *types.Func) (class, why string) {
 		if p.End != "return" || len(p.Vals) != 2 {
 			return "", "helper does not return (string, error)"
 		}
-		// exactly one decoder application, to `"` + raw + `"`
+		// exactly one decoder application, to `"` + raw + `"`; before it only the filling of a byte buffer made here (stores, copy)
 		var dec *TCall
+		var pre []Step
 		for _, st := range p.Effects() {
+			if dec == nil && (st.Kind == "store" || (st.Kind == "call" && st.Blt != nil && st.Blt.Name == "copy")) {
+				pre = append(pre, st)
+				continue
+			}
 			if st.Kind != "call" || st.Call == nil || st.Call.Fun == nil {
 				return "", "helper has effects besides the decoder call"
 			}
@@ -70,6 +75,11 @@ func (c *Ctx) stringDecoderClass(fn *types.Func) (class, why string) {
 				}
 				return sval{}, false
 			}}
+			for _, st := range pre {
+				if !se.execStep(st) || se.panic != "" {
+					return "", "helper has effects besides the decoder call"
+				}
+			}
 			if sv, ok := se.val(src); !ok || sv.K != 's' || sv.S != `"`+probe+`"` {
 				return "", "helper does not apply exactly one known decoder to `\"` + raw + `\"`"
 			}
